@@ -2,6 +2,7 @@
 mod c01;
 mod c02;
 mod c03;
+mod c04;
 mod c05;
 mod hist;
 mod world;
@@ -25,6 +26,7 @@ fn main() {
         "C04" => {
             let mut r = Runner::from_env("C04", "exploration");
             c02::run_c04_sequential(&mut r);
+            c04::run_b_e(&mut r);
             r.finish();
         }
         "C05" => {
